@@ -58,6 +58,7 @@ struct PrintCheck {
    bool complete_item;         // a complete top-level declaration / statement: indentation must be restored
    std::set<unsigned char> allowed_ctrl;
    int preset = 0;             // formatting state of the client's stream at entry (apply_preset)
+   bool preset_after_printer = false;   // the client put its stream into that state AFTER it had built the Printer (a long-lived printer)
    std::string outcome;
 
    // f prints through the Printer it is given
@@ -66,10 +67,11 @@ struct PrintCheck {
    {
       std::ostringstream os;
       os.fill('#'); os.precision(3);
-      apply_preset(os, preset);
-      if (preset) out.count("items_printed_to_a_stream_in_a_non_default_formatting_state");
-      const auto flags0 = os.flags(); const auto fill0 = os.fill(); const auto prec0 = os.precision(); const auto width0 = os.width();
+      if (!preset_after_printer) apply_preset(os, preset);
+      if (preset) out.count(preset_after_printer ? "items_printed_after_the_client_changed_its_stream_behind_a_live_printer" : "items_printed_to_a_stream_in_a_non_default_formatting_state");
       Printer pp(lex, os);
+      if (preset_after_printer) { apply_preset(os, preset); os.fill('*'); os.precision(5); }
+      const auto flags0 = os.flags(); const auto fill0 = os.fill(); const auto prec0 = os.precision(); const auto width0 = os.width();
       pp.print_locations = true;
       const int indent0 = pp.indent();
       outcome = "completed";
@@ -97,7 +99,7 @@ struct PrintCheck {
          out.viol("indentation-not-restored:" + label, "after a complete top-level item the printer's indentation is " + std::to_string(pp.indent()) + ", it started at " + std::to_string(indent0));
       // (d') a stream that was not in its default state: what the client writes afterwards reads as it would have before
       if (preset) {
-         std::ostringstream ref; ref.fill('#'); ref.precision(3); apply_preset(ref, preset);
+         std::ostringstream ref; ref.fill('#'); ref.precision(3); apply_preset(ref, preset); if (preset_after_printer) { ref.fill('*'); ref.precision(5); }
          ref << 255 << ' ' << 64u << ' ' << true << ' ' << 2.5;
          const auto mark = os.str().size();
          os << 255 << ' ' << 64u << ' ' << true << ' ' << 2.5;
@@ -157,8 +159,8 @@ void add_sweep_cases(std::vector<ForkCase>& cases, std::shared_ptr<SweepWorld> W
       }
    }
    cases.push_back({ "unit:sweep", [W](CaseOut& out) { PrintCheck pc { out, "unit:sweep", R_UNIT, true, W->ctrl }; pc.run(W->lex, [&](Printer& pp) { pp << W->unit; }); } });
-   for (int preset = 1; preset < n_presets; ++preset)
-      cases.push_back({ "unit:sweep:stream-preset-" + std::to_string(preset), [W, preset](CaseOut& out) { PrintCheck pc { out, "unit:sweep", R_UNIT, true, W->ctrl, preset }; pc.run(W->lex, [&](Printer& pp) { pp << W->unit; }); } });
+   for (int preset = 1; preset < n_presets; ++preset) for (int late = 0; late < 2; ++late)
+      cases.push_back({ "unit:sweep:stream-preset-" + std::to_string(preset) + (late ? "-after-the-printer-was-built" : ""), [W, preset, late](CaseOut& out) { PrintCheck pc { out, "unit:sweep", R_UNIT, true, W->ctrl, preset, late != 0 }; pc.run(W->lex, [&](Printer& pp) { pp << W->unit; }); } });
 }
 
 void add_literal_cases(std::vector<ForkCase>& cases, Rng& rng, bool thorough)
@@ -360,7 +362,8 @@ void add_program_cases(std::vector<ForkCase>& cases, Rng& rng, bool thorough)
    for (int k = 0; k < n; ++k) {
       const std::uint64_t seed = rng.next();
       const int preset = k % (n_presets + 2) < n_presets ? k % (n_presets + 2) : 0;
-      cases.push_back({ preset ? "program:stream-preset-" + std::to_string(preset) : std::string("program"), [seed, preset](CaseOut& out) {
+      const bool late = preset && (k / (n_presets + 2)) % 2 == 1;
+      cases.push_back({ preset ? "program:stream-preset-" + std::to_string(preset) + (late ? "-after-the-printer-was-built" : "") : std::string("program"), [seed, preset, late](CaseOut& out) {
          Rng r(seed);
          GenOptions o; o.size = 4 + int(r.below(20)); o.max_depth = 2 + int(r.below(8)); o.locations = r.chance(50); o.unsupported = r.chance(40); o.control_bytes = r.chance(40); o.unnamed_udts = r.chance(40);
          Prog P = generate_program(r, o);
@@ -370,17 +373,17 @@ void add_program_cases(std::vector<ForkCase>& cases, Rng& rng, bool thorough)
          int idx = 0;
          for (auto& d : unit.global_namespace().scope().elements()) {
             std::string label = std::string("decl:") + cat_name(d.category) + ":generated";
-            PrintCheck pc { out, label, R_DECL, true, ctrl, preset };
+            PrintCheck pc { out, label, R_DECL, true, ctrl, preset, late };
             pc.run(lex, [&](Printer& pp) { pp << xpr_decl(d, true); });
             ++idx;
          }
          for (int t : P.top) {
             const Expr& e = *E.vals[std::size_t(t)].e;
             std::string label = std::string("stmt:") + cat_name(e.category) + ":generated";
-            PrintCheck pc { out, label, R_STMT, true, ctrl, preset };
+            PrintCheck pc { out, label, R_STMT, true, ctrl, preset, late };
             pc.run(lex, [&](Printer& pp) { pp << xpr_stmt(e); });
          }
-         {  PrintCheck pc { out, "unit:generated", R_UNIT, true, ctrl, preset }; pc.run(lex, [&](Printer& pp) { pp << unit; }); }
+         {  PrintCheck pc { out, "unit:generated", R_UNIT, true, ctrl, preset, late }; pc.run(lex, [&](Printer& pp) { pp << unit; }); }
          out.count("generated_programs"); out.count("generated_top_level_items", idx + (long long)P.top.size());
       } });
    }
@@ -456,7 +459,7 @@ static void body(Ctx& C)
    C.count("cases", (long long)mine.size());
    auto st = run_cases_forked(C, mine, 120);
    (void)st;
-   for (auto k : { "outcome:completed", "outcome:refused", "probes", "literal_spellings", "delimiter_cases", "operator_name_cases", "nesting_cases", "generated_programs", "located_statements_printed", "cases_completed", "numbers_checked", "body_matrix_cases", "enclosure_matrix_cases", "items_printed_to_a_stream_in_a_non_default_formatting_state", "numbers_written_to_a_stream_in_a_non_default_formatting_state" }) C.need(k);
+   for (auto k : { "outcome:completed", "outcome:refused", "probes", "literal_spellings", "delimiter_cases", "operator_name_cases", "nesting_cases", "generated_programs", "located_statements_printed", "cases_completed", "numbers_checked", "body_matrix_cases", "enclosure_matrix_cases", "items_printed_to_a_stream_in_a_non_default_formatting_state", "items_printed_after_the_client_changed_its_stream_behind_a_live_printer", "numbers_written_to_a_stream_in_a_non_default_formatting_state" }) C.need(k);
    C.sample(J().s("case", "expr:Demotion").s("what", "a sweep node of kind Demotion offered as xpr_expr; outcome must be completed or refused(logic_error)").str());
    C.sample(J().s("case", "literal:single-byte 0x01").s("what", "literal whose spelling is byte 1, then 255/64/F7001:1234:89 through the same printer").str());
    C.sample(J().s("case", "nesting:depth-200").s("what", "200 nested if/while/switch/for/labeled/try constructs printed as one statement; indentation restored").str());
